@@ -150,6 +150,16 @@ _CONSTANT_COMPARATORS = {
 }
 
 
+class _AnyIndex(object):
+    """The "*" index path step.  It is not the string "*": a (quoted) key path
+    step may be spelled that way too, and the two address different things."""
+    def __repr__(self):
+        return "[*]"
+
+
+ANY_INDEX = _AnyIndex()
+
+
 def object_path_component_cmp(comp1, comp2):
     """
     Compare a string/int to another string/int; this induces an ordering over
@@ -157,7 +167,7 @@ def object_path_component_cmp(comp1, comp2):
     object paths.
 
     Ints and strings compare as usual to each other; ints compare less than
-    strings.
+    strings.  The "*" index step compares less than everything else.
 
     Args:
         comp1: An object path component (string or int)
@@ -168,8 +178,16 @@ def object_path_component_cmp(comp1, comp2):
         greater than the second
     """
 
+    if comp1 is ANY_INDEX or comp2 is ANY_INDEX:
+        if comp1 is comp2:
+            result = 0
+        elif comp1 is ANY_INDEX:
+            result = -1
+        else:
+            result = 1
+
     # both ints or both strings: use builtin comparison operators
-    if (isinstance(comp1, int) and isinstance(comp2, int)) \
+    elif (isinstance(comp1, int) and isinstance(comp2, int)) \
             or (isinstance(comp1, str) and isinstance(comp2, str)):
         result = generic_cmp(comp1, comp2)
 
@@ -187,7 +205,7 @@ def object_path_to_raw_values(path):
     """
     Converts the given ObjectPath instance to a list of strings and ints.
     All property names become strings, regardless of whether they're *_ref
-    properties; "*" index steps become that string; and numeric index steps
+    properties; "*" index steps become ANY_INDEX; and numeric index steps
     become integers.
 
     Args:
@@ -201,7 +219,9 @@ def object_path_to_raw_values(path):
         if isinstance(comp, ListObjectPathComponent):
             yield comp.property_name
 
-            if comp.index == "*" or isinstance(comp.index, int):
+            if comp.index == "*":
+                yield ANY_INDEX
+            elif isinstance(comp.index, int):
                 yield comp.index
             else:
                 # in case the index is a stringified int; convert to an actual
